@@ -83,7 +83,9 @@ def rd_specs(draw, tier):
              # the same crystal described in another unit system: force constants / s^2 with the frequency factor x s (class route)
              unit_scale=draw(st.sampled_from([1.0, 1.0, 2.5, 0.1])),
              # frequencies read and handed back through the documented setter (nothing may change)
-             reset_freqs=draw(st.booleans()))
+             reset_freqs=draw(st.booleans()),
+             # calculator interface of the object (length unit of the dataset) and the documented plus-minus option of the sampling
+             calc=draw(st.sampled_from([None, "qe", "abinit", "elk", "lammps"])), pm=draw(st.booleans()))
     return b
 
 
@@ -183,6 +185,27 @@ def run_random(spec):
     e4 = np.abs(rd.force_constants - fc_in).max() / max(np.abs(fc_in).max(), 1e-300)
     if e4 > 1e-9:
         return Out(ok=False, classes=classes, msg="run_d2f does not return the original force constants: rel %.3e" % e4)
+    if spec["via"] != "class" and dist == "quantum":
+        # dataset of a sampling at temperature: displacements in the calculator's length unit; plus-minus appends the inverted copies
+        calc = spec.get("calc")
+        BOHR = 0.52917721  # Angstrom
+        to_A = 1.0 if calc in (None, "lammps") else BOHR
+        phc = Phonopy(c["cell"], supercell_matrix=np.array(spec["smat"]), primitive_matrix=pm, calculator=calc, log_level=0)
+        phc.force_constants = fc
+        seed_ = 1 + int(spec["key"]) % 9973
+        phc.generate_displacements(number_of_snapshots=3, temperature=max(T, 2.0), cutoff_frequency=cutoff, random_seed=seed_, is_plusminus=False)
+        D1 = np.array(phc.dataset["displacements"], copy=True)
+        UA = np.array(phc.random_displacements.u, copy=True)
+        classes = classes + ["calc:%s" % calc, "pm:%s" % bool(spec.get("pm"))]
+        if D1.shape != (3, n, 3) or np.abs(D1 * to_A - UA).max() > 1e-6 * max(np.abs(UA).max(), 1e-300):
+            return Out(ok=False, classes=classes, msg="calculator %r: dataset displacements x %.6f differ from the sampled displacements in Angstrom (max |u| %.3e vs %.3e)"
+                       % (calc, to_A, float(np.abs(D1).max()) * to_A, float(np.abs(UA).max())))
+        if spec.get("pm"):
+            phc.generate_displacements(number_of_snapshots=3, temperature=max(T, 2.0), cutoff_frequency=cutoff, random_seed=seed_, is_plusminus=True)
+            D2 = np.array(phc.dataset["displacements"])
+            if D2.shape != (6, n, 3) or np.abs(D2[:3] - D1).max() > 1e-12 * max(np.abs(D1).max(), 1e-300) or np.abs(D2[3:] + D1).max() > 1e-12 * max(np.abs(D1).max(), 1e-300):
+                return Out(ok=False, classes=classes, msg="calculator %r, is_plusminus=True with the same seed: dataset is not [d, -d] of the sampling without it "
+                           "(shape %s, max |d| %.3e vs %.3e)" % (calc, D2.shape, float(np.abs(D2).max()), float(np.abs(D1).max())))
     N = n // len(ph.primitive)
     return Out(ok=True, nontrivial=N >= 2 and T > 0 and n >= 2, classes=classes, info={"err": e1})
 
